@@ -103,5 +103,9 @@ func runStreamFamily(family string, sc *streamScenario, rec *recorder, opt strin
 		runPair(sc, rec)
 	case "merge":
 		runMerge(sc, sc.Variants, rec)
+	case "skip":
+		runSkip(sc, rec)
+	case "rewind":
+		runRewind(sc, rec)
 	}
 }
